@@ -61,10 +61,35 @@ def write(filename, content):
         f.write(content)
 
 
-def make_package(root, depth, partial_all):
+CLASS_TYPED = '''
+class {name}(object):
+    """
+    Settings of the {name} stage
+
+    :cvar label: identifier shown to the user
+    :cvar timeout: seconds to wait"""
+
+    label: str = "stage"
+    timeout: Optional[int] = None
+'''
+
+
+def make_package(root, depth, partial_all, layout="direct"):
+    global CLASS
+    if layout == "via_subpackage_typed":
+        # the parent re-exports a plain module that sorts before the sub-package and then the sub-package's *own* re-export; attributes use typing names
+        saved, CLASS = CLASS, "from typing import Optional\n" + CLASS_TYPED
+        try:
+            return _make_package(root, depth, partial_all, via_subpackage=True)
+        finally:
+            CLASS = saved
+    return _make_package(root, depth, partial_all)
+
+
+def _make_package(root, depth, partial_all, via_subpackage=False):
     base = os.path.join(root, PKG)
     exports = ["Alpha"] + (["Beta"] if depth >= 2 else [])
-    imports = "from {0}.alpha import Alpha\n".format(PKG) + ("from {0}.sub.beta import Beta\n".format(PKG) if depth >= 2 else "")
+    imports = "from {0}.alpha import Alpha\n".format(PKG) + (("from {0}.sub import Beta\n" if via_subpackage else "from {0}.sub.beta import Beta\n").format(PKG) if depth >= 2 else "")
     write(os.path.join(base, "__init__.py"), '"""{0}"""\n\n{1}\n__all__ = {2!r}\n'.format(PKG, imports, exports))
     write(os.path.join(base, "alpha.py"), '"""alpha"""\n{cls}\n{func}\n__all__ = {all_!r}\n'.format(
         cls=CLASS.format(name="Alpha"), func=FUNC.format(name="make_alpha"), all_=["Alpha"] if partial_all else ["Alpha", "make_alpha"]))
@@ -97,6 +122,9 @@ def snapshot(root):
 def cases(tier, seed):
     for depth, emit, recursive, flt, dry in itertools.product((2, 3), EMITS if tier != "quick" else ("class", "function", "sqlalchemy"), (False, True), EXPOSED_FILTERS, (False, True)):
         yield dict(depth=depth, partial_all=False, emit=emit, recursive=recursive, filter=flt, dry_run=dry, out_exists=False, sqlalchemy_submodule=False)
+    # another package layout: re-export through the sub-package's own __init__, classes with typing annotations
+    for depth, emit, recursive, dry in itertools.product((2, 3), EMITS if tier != "quick" else ("class", "function", "sqlalchemy", "pydantic"), (False, True), (False, True)):
+        yield dict(depth=depth, partial_all=False, emit=emit, recursive=recursive, filter="none", dry_run=dry, out_exists=False, sqlalchemy_submodule=False, layout="via_subpackage_typed")
     # further options of the command: --target-module-name, --no-word-wrap, --extra-module
     for depth, emit, recursive, dry, flags in itertools.product((1, 2), ("class", "function", "sqlalchemy") if tier == "quick" else EMITS, (False, True), (False, True),
                                                                (["--target-module-name", "renamed_out"], ["--no-word-wrap"], ["--extra-module", "json"], ["--target-module-name", "renamed_out", "--no-word-wrap", "--extra-module", "json"])):
@@ -134,7 +162,7 @@ def _run(case):
 
     try:
         sys.path.insert(0, root)
-        make_package(root, case["depth"], case["partial_all"])
+        make_package(root, case["depth"], case["partial_all"], case.get("layout", "direct"))
         work = os.path.join(root, "work")
         os.makedirs(work)
         os.makedirs(os.path.join(root, "decoy_sibling"))
